@@ -30,13 +30,26 @@ class Check(PropertyCheck):
     ]
 
     def rule(self):
-        return ("inputs (random diagrams over the full alphabet, bundled files) converted in N fresh processes (independent hash "
+        return ("inputs (random diagrams over the full alphabet, circles/boxes with attachments, the same drawings at other offsets, "
+                "bundled files) converted alone in a fresh process, in N fresh processes (independent hash "
                 "seeds; quick 8, thorough 32), in one warm process under shuffled histories, and by 2..16 threads racing on the "
                 "first, table-initialising calls; every output compared byte for byte; non-trivial = non-empty output "
                 "geometry, distinct by input")
 
     def texts(self, n):
-        ts = [gen.random_diagram(self.rng, 26, 10) for _ in range(n)]
+        """random diagrams, shapes that leave a remainder when recognised, bundled files — and, for a third of them, the
+        same drawing again at other offsets (state keyed by shape rather than by position would show there)"""
+        base = [gen.random_diagram(self.rng, 26, 10) for _ in range(n * 2 // 3)]
+        base += [gen.attached_shape(self.rng) for _ in range(n - len(base))]
+        ts = []
+        for t in base:
+            ts.append(t)
+            if self.rng.chance(1, 3):
+                for _ in range(self.rng.range(1, 2)):
+                    ts.append(gen.place(t, self.rng.below(9), self.rng.below(5)))
+            if self.rng.chance(1, 8):
+                ts.append(t + "\n\n" + gen.place(t, self.rng.range(1, 12), 0))
+        self.rng.shuffle(ts)
         ts += [t for _, t in gen.bundled()[: self.scale(3, 8)]]
         return ts
 
@@ -73,6 +86,15 @@ class Check(PropertyCheck):
                 fails.append(Failure("the same input gives different output in different processes", {"input": t, "input_hex": hx(t)},
                                      {"distinct_outputs": len(vals)}))
         self.stats["processes"] = nproc
+        # 1b. a sample converted alone, each in its own process: the history-free reference
+        solo = list(range(len(texts)))
+        self.rng.shuffle(solo)
+        for i in solo[: self.scale(60, 600)]:
+            o = run_process(["lib"], [lines[i]])
+            self.evaluations += 1
+            if o.get(str(i)) != ref.get(str(i)):
+                fails.append(Failure("output depends on which inputs were converted before", {"input": texts[i], "input_hex": hx(texts[i])},
+                                     {"history": "alone in a fresh process vs after %d other inputs" % i}))
         # 2. warm process, shuffled histories
         for rnd in range(self.scale(3, 10)):
             order = list(range(len(texts)))
